@@ -96,7 +96,17 @@ func buildNative(o *options, scratch string, overlay map[string][]byte, rel stri
 		return "", err
 	}
 	bin := filepath.Join(scratch, strings.ReplaceAll(rel, "/", "_")+".test")
-	cmd := exec.Command("go", "test", "-c", "-vet=off", "-tags=verif", "-overlay", ovPath, "-o", bin, "./"+rel)
+	buildArgs := []string{"test", "-c", "-vet=off", "-tags=verif"}
+	for _, d := range overlay {
+		// a harness file carrying the line "//verif:race" asks for the native replay to be
+		// built with the race detector (C05: a data race kills the replay = reproduced)
+		if bytes.Contains(d, []byte("\n//verif:race\n")) {
+			buildArgs = append(buildArgs, "-race")
+			break
+		}
+	}
+	buildArgs = append(buildArgs, "-overlay", ovPath, "-o", bin, "./"+rel)
+	cmd := exec.Command("go", buildArgs...)
 	cmd.Dir = o.repo
 	cmd.Env = append(goEnv(), "GOCACHE="+filepath.Join(scratch, "gocache-"+fmt.Sprint(os.Getuid())))
 	// reuse the default build cache when available (faster); fall back to scratch
@@ -115,7 +125,7 @@ func runNativeBatch(bin, dir, scratch string, cases []*nativeCase, only int) (ma
 	os.WriteFile(in, data, 0o644)
 	cmd := exec.Command(bin, "-test.run", "^TestZZReplay$", "-test.timeout", "20m")
 	cmd.Dir = dir
-	cmd.Env = append(os.Environ(), "VERIF_REPLAY_IN="+in, "VERIF_REPLAY_OUT="+outp)
+	cmd.Env = append(os.Environ(), "VERIF_REPLAY_IN="+in, "VERIF_REPLAY_OUT="+outp, "GORACE=halt_on_error=1")
 	if only >= 0 {
 		cmd.Env = append(cmd.Env, "VERIF_REPLAY_ONLY="+strconv.Itoa(only))
 	}
@@ -335,6 +345,7 @@ func report(o *options, all []*hstate, known map[string]string, overlay map[stri
 	broken := []string{}
 	replayN := 0
 	knownSeen := map[string]bool{}
+	knownBenign := 0
 	for _, c := range cases {
 		no := outs[c]
 		switch c.kind {
@@ -363,6 +374,10 @@ func report(o *options, all []*hstate, known map[string]string, overlay map[stri
 			path := writeReplay(o, c.h, f, replayN, tier)
 			rep, why := reproduced(c, no)
 			switch {
+			case !rep && f.Known:
+				// inside a declared known-finding region nothing is claimed; a model that
+				// happens to behave correctly natively is not an alarm
+				knownBenign++
 			case !rep:
 				v.inconcl = append(v.inconcl, fmt.Sprintf("INCONCLUSIVE: property=%s harness=%s assert=%s counterexample does not reproduce natively (%s) replay=%s", o.prop, c.Harness, f.ID, why, path))
 			case f.Known && known[f.ID] != "":
@@ -502,6 +517,7 @@ func report(o *options, all []*hstate, known map[string]string, overlay map[stri
 			"aborted_paths":                 aborts,
 			"inconclusive":                  len(v.inconcl) + len(v.tvBad),
 			"known_findings":                v.knownLines,
+			"known_region_models_benign_natively": knownBenign,
 			"exhaustive":                    false,
 			"explanation":                   "states = symbolic paths completed or pruned; transitions = SSA instructions interpreted; each path's assertions are decided by the SMT solver for all inputs satisfying its path condition, within the bounds listed per harness",
 		},
